@@ -89,6 +89,17 @@ def check(ctx):
 
             st, yv, xv = handrolled_trapezoid(its, its.to_nf(ps.value), {"pressure"})
             if st == "none":
+                vn = its.to_nf(ps.value)
+                names = {a[1] for a in nf.atoms(vn) if a[0] == "fn"}
+                if "cumsum" in names and not ({"diff", "numpy.diff"} & names) and not any(a[0] == "fn" and a[1] == "vec" for a in nf.atoms(vn)):
+                    # a running sum of the integrand scaled by one global step: the trapezoid rule of an evenly spaced
+                    # table only - the transform is defined for the pressure column it is given
+                    ctx.bad(
+                        "C08-b", qs + ":quadrature over the given pressures" + vtag, fs.where(),
+                        "the cumulative integral uses the spacing of the pressure column it is given (consecutive differences), not one global step",
+                        signature="uniform-step running sum", value=nf.show(vn, 200),
+                    )
+                    continue
                 raise AnalysisError(f"{qs}: neither a library quadrature nor a recognisable hand-written trapezoid rule")
             ctx.check(st == "ok", "C08-b", qs + ":hand-written trapezoid" + vtag, fs.where(), "a hand-written quadrature is the cumulative trapezoid rule sum 1/2 (y[j+1] + y[j]) (x[j+1] - x[j]) over the pressure column with signed differences", signature="hand-written quadrature", reason=yv if st != "ok" else "")
             if st == "ok":
